@@ -188,13 +188,9 @@ pub(crate) fn replay_wal(
 						match current_memtable.add(&batch) {
 							Ok(()) => {}
 							Err(Error::ArenaFull) => {
-								// Edge case: single segment exceeds memtable capacity
-								if current_memtable.is_empty() {
-									return Err(Error::Other(format!(
-									"Batch too large for memtable (batch size exceeds arena_size={})",
-									arena_size
-								)));
-								}
+								// The segment (or a single record: a transaction larger than
+								// the arena fails in apply only after its record is durable)
+								// exceeds the memtable capacity: replay it into a larger one.
 								log::warn!(
 								"WAL segment #{:020} exceeds memtable capacity {}, replaying it into a larger memtable",
 								segment_id,
